@@ -1,0 +1,17 @@
+// Copyright 2025 NVIDIA CORPORATION
+// SPDX-License-Identifier: Apache-2.0
+
+//go:build verif
+
+package framework
+
+// VerifStatementHook observes the life cycle of statements (created, checkpoint, rollback, discard, commit).
+// It exists only in builds with the "verif" tag, which the verification harness uses; release builds compile
+// verif_hooks_off.go instead.
+var VerifStatementHook func(event string, s *Statement, arg int)
+
+func verifStatementEvent(event string, s *Statement, arg int) {
+	if VerifStatementHook != nil {
+		VerifStatementHook(event, s, arg)
+	}
+}
